@@ -90,6 +90,20 @@ def array_init(case):
             'rest_unset': all(c is None for c in a.cells[n:])}
 
 
+def assemble(case):
+    """[[op, operand...]] -> code bytes with the real instruction table (numeric operands only)"""
+    from qvm.instrs import op_to_instr
+    out = []
+    for op, *args in case:
+        ins = op_to_instr[op]
+        b = bytes([ins.op_code])
+        for cls, a in zip(ins.operands, args):
+            b += bytes(cls(None, None, None)._encode(a))
+        assert len(args) == len(ins.operands)
+        out += list(b)
+    return out
+
+
 def ticks_case(case):
     """{module, state, n}: n ticks of the real cpu from a constructed state
     (machfn encoding); stops early on a halt or a host exception"""
@@ -97,6 +111,12 @@ def ticks_case(case):
     m, p = machfn.build_state(case['module'], case['state'])
     cpu = m.cpu
     dd = cpu.devices['data']
+    for s in machfn._registry:
+        # build_state creates Array segments without running Array.__init__;
+        # deref* formats the reference for its log line and Array.__repr__ reads .bounds
+        if isinstance(s, Array) and not hasattr(s, 'bounds'):
+            s.bounds = []
+            s.element_size = 1
     k = 0
     try:
         while k < case['n'] and not cpu.halted and cpu.pc < len(cpu.module.code):
@@ -132,3 +152,104 @@ def run_sentinel(case):
     text = ''.join(''.join(chr(c) for c in e[1]) for e in p.events if e[0] == 'terminal_print')
     return {'text': text, 'outcome': outcome(cpu), 'ticks': n, 'exc': exc,
             'limit': n >= mx, 'stack': len(cpu.stack)}
+
+
+def run_sentinel_configs(case):
+    """{src, configs: [[level, debug]], max_ticks}: one result per configuration"""
+    out = []
+    for level, debug in case['configs']:
+        try:
+            out.append(run_sentinel({'src': case['src'], 'level': level, 'debug': debug,
+                                     'max_ticks': case.get('max_ticks', 400000)}))
+        except BaseException as e:  # noqa: compile-time failures are results too
+            import traceback
+            tb = traceback.extract_tb(e.__traceback__)
+            out.append({'compile_exc': [type(e).__name__, tb[-1].name, str(e)[:160]]})
+    return out
+
+
+# ---- T-fn without the parser: the real memlayout functions on symbol tables
+# built directly from an abstract shape (fast; the compiled route above ties
+# the front end on a sub-sample)
+
+def _mk_type(d):
+    from qbee.expr import Type, NumericLiteral
+    from qbee.stmt import ArrayDimRange
+    if d[0] == 1:
+        return [Type.INTEGER, Type.LONG, Type.SINGLE, Type.DOUBLE, Type.STRING][d[1] - 1]
+    if d[0] == 2:
+        return Type.from_name(d[1])
+    base = _mk_type(d[-1])
+    if d[0] == 3:
+        dims = [ArrayDimRange(NumericLiteral(lb, Type.INTEGER), NumericLiteral(ub, Type.INTEGER))
+                for lb, ub in d[1]]
+        return base.modified(is_array=True, array_dims=dims, is_nodim_array=False)
+    return base.modified(is_array=True, array_dims=[], is_nodim_array=True)
+
+
+def layout_direct(case):
+    """case: {recs: [[name, [[field, ty]]]] (definition order), shared: [[name, ty]],
+    routines: [[name, params, locals, statics]], queries, var_queries, gvar_queries}"""
+    from qbee.compiler import CompilationUnit
+    from qbee.evalctx import Routine
+    from qbee.expr import Type
+    from qbee.stmt import TypeBlock, VarDeclClause
+    comp = CompilationUnit()
+    for n, fs in case['recs']:
+        decls = []
+        for fn, ft in fs:
+            assert ft[0] in (1, 2)
+            nm = Type.builtin_types[ft[1] - 1].name if ft[0] == 1 else ft[1]
+            decls.append(VarDeclClause(fn, nm))
+        comp.user_types[n] = TypeBlock(n, decls)
+    for n, t in case['shared']:
+        comp.global_vars[n] = _mk_type(t)
+    rts = {}
+    for rn, ps, ls, st in case['routines']:
+        if rn == '_main':
+            r = comp.main_routine
+        else:
+            r = Routine(rn, 'sub', comp, [(n, _mk_type(t)) for n, t in ps])
+            comp.routines[rn] = r
+        for n, t in ls:
+            r.local_vars[n] = _mk_type(t)
+        for n, t in st:
+            r.static_vars[n] = _mk_type(t)
+        rts[rn] = r
+    # QvmCodeGen.init_code
+    for r in comp.routines.values():
+        comp.global_vars.update({r.get_variable(sv).full_name: stype
+                                 for sv, stype in r.static_vars.items()})
+    out = {}
+    out['types'] = [[n, [[fn, ty_desc(ft)] for fn, ft in tb.fields.items()]]
+                    for n, tb in comp.user_types.items()]
+    out['globals'] = [[n, ty_desc(t), _try(lambda n=n: memlayout.get_global_var_idx(comp, n)),
+                       _try(lambda t=t: memlayout.get_type_size(comp, t))]
+                      for n, t in comp.global_vars.items()]
+    routines = []
+    for rname, r in comp.routines.items():
+        ent = {'name': rname, 'kind': r.kind}
+        ent['params'] = [[n, ty_desc(t), _try(lambda n=n: memlayout.get_local_var_idx(r, n)),
+                          _try(lambda t=t: memlayout.get_type_size(comp, t))]
+                         for n, t in r.params.items()]
+        ent['locals'] = [[n, ty_desc(t), _try(lambda n=n: memlayout.get_local_var_idx(r, n)),
+                          _try(lambda t=t: memlayout.get_type_size(comp, t))]
+                         for n, t in r.local_vars.items()]
+        ent['statics'] = [[n, ty_desc(t), r.get_variable(n).full_name]
+                          for n, t in r.static_vars.items()]
+        ent['psize'] = _try(lambda: memlayout.get_params_size(r))
+        ent['lsize'] = _try(lambda: memlayout.get_local_vars_size(r))
+        routines.append(ent)
+    out['routines'] = routines
+    out['frames'] = None
+    out['nglobals'] = sum(memlayout.get_type_size(comp, t) for t in comp.global_vars.values())
+    dotted = []
+    for rname, var, path in case.get('queries', []):
+        v = rts[rname].get_variable(var)
+        dotted.append(_try(lambda: memlayout.get_dotted_index(v.type, path, comp)))
+    out['dotted'] = dotted
+    out['varq'] = [_try(lambda q=q: memlayout.get_local_var_idx(rts[q[0]], q[1]))
+                   for q in case.get('var_queries', [])]
+    out['gvarq'] = [_try(lambda q=q: memlayout.get_global_var_idx(comp, q))
+                    for q in case.get('gvar_queries', [])]
+    return out
